@@ -1,3 +1,4 @@
+import NasimModel.Generated.GeneratorOk
 import NasimModel.Model.Gen
 import NasimModel.Model.Env
 import NasimModel.Proofs.GenFirewall
